@@ -145,7 +145,11 @@ func corrupt(lines []string, d asm.Dialect, m int, r *Rng) ([]string, string) {
 		i := pickLine()
 		f := fieldsOf(out[i])
 		if r.Bool() && len(f) > 1 {
-			f[1] = []string{"*", "{", "}", ">", "?", "$$", "!"}[r.Intn(7)]
+			k := 1
+			if len(f) >= 5 && r.Bool() {
+				k = 4 // the mode character of the B operand
+			}
+			f[k] = []string{"*", "{", "}", ">", "?", "$$", "!"}[r.Intn(7)]
 		} else {
 			f[0] = []string{"MUL", "DIV", "MOD", "SEQ", "SNE", "NOP", "MOV.I", "DAT.F"}[r.Intn(8)]
 		}
